@@ -341,6 +341,96 @@ fn check(role: Role, name: &str, rep: &mut Report) {
     }
 }
 
+/// Two hoisted anonymous members whose (parent, member) names concatenate to the same letters but split differently
+/// (`Sub`.`scription` / `Subscript`.`ion`): by the documented case rules the hoisted items are `SubScription` and
+/// `SubscriptIon`. Judged three ways on one thread: both parents in one module, in two modules of one compilation, and in
+/// two successive compilations (state that survives a definition, a module, a compilation).
+fn hoist_collisions(seed: u64, range: std::ops::Range<u64>, rep: &mut Report) {
+    let title = |w: &str| -> String {
+        let mut c = w.chars();
+        c.next().map(|f| f.to_ascii_uppercase().to_string() + c.as_str()).unwrap_or_default()
+    };
+    for i in range {
+        let mut rng = Rng::for_case(seed, 1616, i);
+        let len = 4 + rng.below(8);
+        let word: String = (0..len).map(|_| (b'a' + rng.below(26) as u8) as char).collect();
+        let a = 1 + rng.below(len - 2);
+        let mut b = 1 + rng.below(len - 2);
+        if b == a {
+            b = if a + 1 < len - 1 { a + 1 } else { a - 1 };
+        }
+        if b == 0 || b >= len {
+            continue;
+        }
+        let pairs = [(title(&word[..a]), word[a..].to_string()), (title(&word[..b]), word[b..].to_string())];
+        if is_rust_keyword(&pairs[0].1) || is_rust_keyword(&pairs[1].1) {
+            continue;
+        }
+        let def = |k: usize| format!("{} ::= SEQUENCE {{ {} {} {{ inner{k} NULL }}, other{k} BOOLEAN }}\n", pairs[k].0, pairs[k].1, if (i + k as u64) % 2 == 0 { "SEQUENCE" } else { "CHOICE" });
+        let header = |m: &str| format!("{m} DEFINITIONS AUTOMATIC TAGS ::= BEGIN\n");
+        let layouts: [(&str, Vec<Vec<String>>); 3] = [
+            ("one-module", vec![vec![format!("{}{}{}END\n", header("Mq1"), def(0), def(1))]]),
+            ("two-modules", vec![vec![format!("{}{}END\n", header("Mq1"), def(0)), format!("{}{}END\n", header("Mq2"), def(1))]]),
+            ("two-compilations", vec![vec![format!("{}{}END\n", header("Mq1"), def(0))], vec![format!("{}{}END\n", header("Mq1"), def(1))]]),
+        ];
+        for (layout, compilations) in layouts {
+            let mut found: Vec<(usize, String, bool)> = vec![]; // (pair, field type, defined)
+            let mut clean = true;
+            let mut first_pair = 0usize;
+            for srcs in &compilations {
+                let run = comp::rasn(srcs, &comp::Cfg::default_cfg());
+                rep.evaluations += 1;
+                let comp::Outcome::Ok { generated, warnings } = &run.out else {
+                    clean = false;
+                    break;
+                };
+                if !warnings.is_empty() {
+                    clean = false;
+                    break;
+                }
+                let Ok(mods) = proj::project(generated) else {
+                    clean = false;
+                    break;
+                };
+                let npairs = if layout == "two-compilations" { 1 } else { 2 };
+                for k in first_pair..first_pair + npairs {
+                    for m in &mods {
+                        if let Some(it) = m.find(&pairs[k].0) {
+                            if let Kind::Struct { fields, .. } = &it.kind {
+                                if let Some(f) = fields.first() {
+                                    let defined = m.items.iter().any(|x| x.name == f.ty && matches!(x.kind, Kind::Struct { .. } | Kind::Enum { .. }));
+                                    found.push((k, f.ty.clone(), defined));
+                                }
+                            }
+                        }
+                    }
+                }
+                first_pair += npairs;
+            }
+            if !clean {
+                rep.count("hoist_collision_cases[not compiled cleanly]", 1);
+                continue;
+            }
+            rep.count(&format!("hoist_collision_cases_judged[{layout}]"), 1);
+            rep.nontrivial.insert(hash_str(&format!("{layout}|{word}|{a}|{b}")));
+            if found.len() != 2 {
+                rep.inconclusive.push(format!("hoist collisions: parent structs not found for {pairs:?} ({layout})"));
+                continue;
+            }
+            for (k, ty, defined) in found {
+                let want = format!("{}{}", pairs[k].0, title(&pairs[k].1));
+                if ty != want || !defined {
+                    rep.violations.push(Violation {
+                        sig: format!("c16|hoisted-name-not-derived-from-its-own-names|{layout}"),
+                        what: format!("the anonymous type of component `{}` of `{}` must be hoisted as `{want}`; the field has type `{ty}` (defined: {defined}) - other parent in the same run: `{}`.`{}` [{layout}]", pairs[k].1, pairs[k].0, pairs[1 - k].0, pairs[1 - k].1),
+                        replay: json!({"family": "hoist-collision", "seed": seed, "index": i, "layout": layout, "pairs": [[pairs[0].0, pairs[0].1], [pairs[1].0, pairs[1].1]], "compilations": compilations}),
+                    });
+                }
+            }
+        }
+    }
+}
+
 pub fn run(ctx: &Ctx) -> Report {
     let mut rep = Report::new(
         "exploration",
@@ -352,6 +442,11 @@ pub fn run(ctx: &Ctx) -> Report {
     if let Some(path) = &ctx.replay {
         let doc: serde_json::Value = serde_json::from_str(&std::fs::read_to_string(path).expect("replay")).expect("json");
         let c = &doc["case"];
+        if c["family"].as_str() == Some("hoist-collision") {
+            let i = c["index"].as_u64().unwrap_or(0);
+            hoist_collisions(c["seed"].as_u64().unwrap_or(1), i..i + 1, &mut rep);
+            return rep;
+        }
         let role = ROLES.iter().find(|r| format!("{r:?}") == c["role"].as_str().unwrap_or("")).copied().unwrap_or(Role::Component);
         check(role, c["name"].as_str().unwrap_or("x"), &mut rep);
         return rep;
@@ -388,5 +483,8 @@ pub fn run(ctx: &Ctx) -> Report {
         }
         acc.with(|r| r.merge(local));
     });
-    acc.into_inner()
+    let mut rep = acc.into_inner();
+    // sequential on this thread: the family is about state that survives an earlier definition / module / compilation
+    hoist_collisions(ctx.seed, 0..ctx.pick(400u64, 6000), &mut rep);
+    rep
 }
